@@ -249,6 +249,9 @@ func c02main(c *Ctx) {
 		}
 		id := fmt.Sprintf("c02id%dz", idx)
 		msg := id + r.Str(gen.StrOpt{HostilePc: 45, Long: true})
+		if r.P(30) { // the id is not always the first thing in the message: leading line breaks, blanks, controls, markup
+			msg = gen.Pick(r, []string{"\n", "\n\n", "\r\n", " ", "\t", "\x00", "<b>", "\"", "\\", "\x1b[31m", "\xff", "\n \n"}) + msg
+		}
 		if r.P(3) {
 			msg += strings.Repeat(gen.Pick(r, gen.Hostile)+"0123456789", r.Range(1000, 18000)) // up to ~200 kB
 		}
